@@ -8,6 +8,8 @@ import PyYetiVerif.Generated.ParFootprintParent
       -> `1` / `0`   (does the access, evaluated in task j, touch that cell?)
 `dec <mode> <LF> <size> <maxcpu|none> <getresp 0/1> <cpu> <win 0/1>`
       -> `<mode'> <ncpu>` or `raise`       (`processParallel` on the REGENERATED decision table)
+`dec <mode> <LF> <size> <maxcpu|none> <getresp 0/1> <cpu> <win 0/1> <srs|fdepsd> <name|picklable|unpicklable>`
+      -> the same for the decision of the routine (`routineDecision`: the regenerated guard after the helper)
 `own <worker> | <arr> <i0> <i1> …`
       -> owner task of the cell under the regenerated footprint of that worker, or `none`
 `part <worker> <LF> | <arr> <n0> <n1> …`
@@ -80,6 +82,23 @@ def answer (line : String) : String :=
       match j.toNat?, pat.mapM parseIx, idx.mapM String.toNat? with
       | some j, some pat, some idx => if covers ⟨arr, pat⟩ j (carr, idx) then "1" else "0"
       | _, _, _ => "bad-op"
+  | [["dec", mode, lf, size, maxcpu, getresp, cpu, win, routine, peak]] =>
+      -- decision of the ROUTINE (srs / fdepsd): `_process_parallel`, then the regenerated guard
+      let mx : Option (Option Nat) := if maxcpu == "none" then some none else maxcpu.toNat?.map some
+      let pk : Option PeakArg := match peak with
+        | "name" => some .name | "picklable" => some .picklable | "unpicklable" => some .unpicklable
+        | _ => none
+      let g : Option PickleGuard := match routine with
+        | "srs" => some ParFootprintParent.guard_srs | "fdepsd" => some ParFootprintParent.guard_fdepsd
+        | _ => none
+      match lf.toNat?, size.toNat?, mx, cpu.toNat?, pk, g with
+      | some lf, some size, some mx, some cpu, some pk, some g =>
+          let mode := if mode == "<empty>" then "" else mode
+          match routineDecision ParFootprintParent.decision g mode
+              ⟨lf, size, mx, getresp == "1", cpu, win == "1"⟩ pk with
+          | some (m, n) => m ++ " " ++ toString n
+          | none => "raise"
+      | _, _, _, _, _, _ => "bad-op"
   | [["dec", mode, lf, size, maxcpu, getresp, cpu, win]] =>
       let mx : Option (Option Nat) := if maxcpu == "none" then some none else maxcpu.toNat?.map some
       match lf.toNat?, size.toNat?, mx, cpu.toNat? with
